@@ -131,6 +131,9 @@ def function(lang, name, kind, chain, sibling=False):
             return [f"const {name} = function ({params}) {{"] + ind(body, 1) + ["};"], 0
         if kind == "generator":
             return [f"function* {name}({params}) {{"] + ind(body, 1) + ["}"], 0
+        if kind == "with-jsx":      # a component: the nesting constructs are followed by a JSX return with a braced callback
+            i_decl = "(i: any)" if ts else "(i)"
+            return [f"function {name}({params}) {{"] + ind(body, 1) + [" " * u + f"return <ul>{{xs.map({i_decl} => {{ return <li>{{i}}</li>; }})}}</ul>;", "}"], 0
         # functions that sit inside the expression body of an arrow function (curried chain / callback)
         if kind == "curried-arrow":
             return [f"const {name} = (store{': any' if ts else ''}) => (next{': any' if ts else ''}) => ({params}) => {{"] + ind(body, 1) + ["};"], 0
@@ -149,6 +152,6 @@ def function(lang, name, kind, chain, sibling=False):
 
 def kinds(lang):
     return {"python": ("function", "async", "method", "decorated"),
-            "typescript": ("function", "async", "method", "arrow", "function-expression", "generator", "curried-arrow", "callback-in-expression-arrow"),
-            "javascript": ("function", "async", "method", "arrow", "function-expression", "generator", "curried-arrow", "callback-in-expression-arrow"),
+            "typescript": ("function", "async", "method", "arrow", "function-expression", "generator", "curried-arrow", "callback-in-expression-arrow", "with-jsx"),
+            "javascript": ("function", "async", "method", "arrow", "function-expression", "generator", "curried-arrow", "callback-in-expression-arrow", "with-jsx"),
             "rust": ("function", "async", "method")}[lang]
